@@ -42,6 +42,11 @@ def ev(node, x, p, t=0.0, V=1.0):
         if k == "^":
             if a < 0 and b != int(b):
                 raise Undefined("negative base, fractional exponent")
+            if a == 0 and math.copysign(1.0, a) < 0 and b != int(b):
+                # a NEGATIVE zero under a fractional power: the base is zero as a product with a negative factor, i.e. this is an
+                # isolated boundary point of an expression that is undefined all around it; an algebraically equal form
+                # ((-1)^b * |base|^b) has no value there.  A plain zero base (sqrt(0)) stays asserted.
+                raise Undefined("negative zero base, fractional exponent")
             if a == 0 and b < 0:
                 raise Undefined("0 to a negative power")
             try:
